@@ -4,7 +4,7 @@
 import json, os, re, shutil, sys
 pid, k, needs = sys.argv[1], sys.argv[2], sys.argv[3]
 caught = sys.argv[4:]
-src = f"/tmp/adv-out/{pid}"
+src = os.environ.get("ADV_OUT", "/tmp/adv-out") + f"/{pid}"
 n = 1 + max([int(m.group(1)) for x in os.listdir("/verif/seeded") if (m := re.fullmatch(pid + r"-(\d+)", x))] or [0])
 dst = f"/verif/seeded/{pid}-{n}"
 os.makedirs(dst)
